@@ -90,3 +90,39 @@ def vary_case(msg, k):
     if r == 1:
         return msg.lower()
     return "".join(c.lower() if i % 2 else c for i, c in enumerate(msg))
+
+
+# ---------------------------------------------------------------- timestamp representations (C03, C05)
+# The pair decoders are documented for `int | datetime` timestamps and only ever compare them.  A pair of timestamps
+# is produced in one of these representations; JSON-safe forms (numbers, or {"dt": iso}) are decoded by ts_dec().
+TS_KINDS = ["int", "zero", "subsecond_float", "epoch_float", "datetime_same_second", "datetime_minute_boundary",
+            "negative", "huge_gap"]
+
+
+def ts_pair(kind, first_newer):
+    """(t_first, t_second) in JSON-safe form, the first strictly newer iff first_newer."""
+    k = TS_KINDS[kind % len(TS_KINDS)]
+    if k == "int":
+        new, old = 10, 9
+    elif k == "zero":
+        new, old = 1, 0
+    elif k == "subsecond_float":
+        new, old = 100.75, 100.25
+    elif k == "epoch_float":
+        new, old = 1700000000.625, 1700000000.125
+    elif k == "datetime_same_second":
+        new, old = {"dt": "2024-03-09T12:00:07.750000"}, {"dt": "2024-03-09T12:00:07.250000"}
+    elif k == "datetime_minute_boundary":
+        new, old = {"dt": "2024-03-09T12:01:00.100000"}, {"dt": "2024-03-09T12:00:59.900000"}
+    elif k == "negative":
+        new, old = -1, -2
+    else:
+        new, old = 5000000, 3
+    return (new, old) if first_newer else (old, new)
+
+
+def ts_dec(t):
+    if isinstance(t, dict) and "dt" in t:
+        import datetime
+        return datetime.datetime.fromisoformat(t["dt"])
+    return t
